@@ -142,28 +142,150 @@ unsafe fn fenced_dealloc(ptr: *mut u8, layout: Layout) {
     LIVE_BYTES.fetch_sub(layout.size() as i64, Ordering::Relaxed);
 }
 
+// ------------------------------------------------------------------------------------------
+// ledger mode (C18): allocations made while `LEDGER_ON` is set are recorded; freeing one removes it;
+// freeing it again (before the address has been handed out again) is a double free
+
+const LEDGER_SLOTS: usize = 512;
+static LEDGER_ON: AtomicBool = AtomicBool::new(false);
+static LEDGER_LOCK: AtomicBool = AtomicBool::new(false);
+static mut LEDGER_LIVE: [usize; LEDGER_SLOTS] = [0; LEDGER_SLOTS];
+static mut LEDGER_SIZE: [usize; LEDGER_SLOTS] = [0; LEDGER_SLOTS];
+static mut LEDGER_FREED: [usize; LEDGER_SLOTS] = [0; LEDGER_SLOTS];
+static LEDGER_DOUBLE_FREES: AtomicUsize = AtomicUsize::new(0);
+static LEDGER_OVERFLOW: AtomicBool = AtomicBool::new(false);
+
+fn ledger_lock() {
+    while LEDGER_LOCK.swap(true, Ordering::Acquire) {
+        std::hint::spin_loop();
+    }
+}
+fn ledger_unlock() {
+    LEDGER_LOCK.store(false, Ordering::Release);
+}
+
+#[allow(static_mut_refs)]
+unsafe fn ledger_on_alloc(p: usize, track: bool, size: usize) {
+    ledger_lock();
+    // the address is in use again: a later free of it is legitimate
+    for e in LEDGER_FREED.iter_mut() {
+        if *e == p {
+            *e = 0;
+        }
+    }
+    if track {
+        match LEDGER_LIVE.iter().position(|e| *e == 0) {
+            Some(i) => {
+                LEDGER_LIVE[i] = p;
+                LEDGER_SIZE[i] = size;
+            }
+            None => LEDGER_OVERFLOW.store(true, Ordering::Relaxed),
+        }
+    }
+    ledger_unlock();
+}
+
+#[allow(static_mut_refs)]
+unsafe fn ledger_on_free(p: usize) -> bool {
+    ledger_lock();
+    let mut double = false;
+    if let Some(e) = LEDGER_LIVE.iter_mut().find(|e| **e == p) {
+        *e = 0;
+        if let Some(f) = LEDGER_FREED.iter_mut().find(|e| **e == 0) {
+            *f = p;
+        }
+    } else if LEDGER_FREED.iter().any(|e| *e == p) {
+        double = true;
+        LEDGER_DOUBLE_FREES.fetch_add(1, Ordering::Relaxed);
+    }
+    ledger_unlock();
+    double
+}
+
+static LEDGER_USED: AtomicBool = AtomicBool::new(false);
+
+/// switch tracking on/off; returns the previous state (save/restore around scheduler calls)
+pub fn ledger_track(on: bool) -> bool {
+    LEDGER_USED.store(true, Ordering::Relaxed);
+    LEDGER_ON.swap(on, Ordering::Relaxed)
+}
+#[allow(static_mut_refs)]
+pub fn ledger_live() -> usize {
+    ledger_lock();
+    let n = unsafe { LEDGER_LIVE.iter().filter(|e| **e != 0).count() };
+    ledger_unlock();
+    n
+}
+#[allow(static_mut_refs)]
+pub fn ledger_live_sizes() -> Vec<usize> {
+    let prev = ledger_track(false);
+    ledger_lock();
+    let mut v = [0usize; 16];
+    let mut n = 0;
+    unsafe {
+        for (i, e) in LEDGER_LIVE.iter().enumerate() {
+            if *e != 0 && n < 16 {
+                v[n] = LEDGER_SIZE[i];
+                n += 1;
+            }
+        }
+    }
+    ledger_unlock();
+    let out = v[..n].to_vec();
+    ledger_track(prev);
+    out
+}
+pub fn ledger_double_frees() -> usize {
+    LEDGER_DOUBLE_FREES.load(Ordering::Relaxed)
+}
+pub fn ledger_overflowed() -> bool {
+    LEDGER_OVERFLOW.load(Ordering::Relaxed)
+}
+#[allow(static_mut_refs)]
+pub fn ledger_reset() {
+    ledger_lock();
+    unsafe {
+        LEDGER_LIVE = [0; LEDGER_SLOTS];
+        LEDGER_FREED = [0; LEDGER_SLOTS];
+    }
+    LEDGER_DOUBLE_FREES.store(0, Ordering::Relaxed);
+    ledger_unlock();
+}
+
 unsafe impl GlobalAlloc for FenceAlloc {
     #[inline]
     unsafe fn alloc(&self, layout: Layout) -> *mut u8 {
-        if ARMED.try_with(|a| a.get()).unwrap_or(false) {
-            fenced_alloc(layout)
-        } else {
-            System.alloc(layout)
+        let p = if ARMED.try_with(|a| a.get()).unwrap_or(false) { fenced_alloc(layout) } else { System.alloc(layout) };
+        if LEDGER_USED.load(Ordering::Relaxed) {
+            ledger_on_alloc(p as usize, LEDGER_ON.load(Ordering::Relaxed), layout.size());
         }
+        p
     }
     #[inline]
     unsafe fn dealloc(&self, ptr: *mut u8, layout: Layout) {
+        let double = LEDGER_USED.load(Ordering::Relaxed) && ledger_on_free(ptr as usize);
         if in_region(ptr as usize) {
+            // (a double free dies here with a report)
             fenced_dealloc(ptr, layout)
         } else {
+            if double {
+                // do not hand a doubly freed block to the system allocator
+                return;
+            }
             System.dealloc(ptr, layout)
         }
     }
     #[inline]
     unsafe fn alloc_zeroed(&self, layout: Layout) -> *mut u8 {
         if ARMED.try_with(|a| a.get()).unwrap_or(false) {
-            let p = fenced_alloc(layout);
+            let p = self.alloc(layout);
             std::ptr::write_bytes(p, 0, layout.size());
+            p
+        } else if LEDGER_USED.load(Ordering::Relaxed) {
+            let p = self.alloc(layout);
+            if !p.is_null() {
+                std::ptr::write_bytes(p, 0, layout.size());
+            }
             p
         } else {
             System.alloc_zeroed(layout)
@@ -172,7 +294,7 @@ unsafe impl GlobalAlloc for FenceAlloc {
     #[inline]
     unsafe fn realloc(&self, ptr: *mut u8, layout: Layout, new_size: usize) -> *mut u8 {
         let armed = ARMED.try_with(|a| a.get()).unwrap_or(false);
-        if !armed && !in_region(ptr as usize) {
+        if !armed && !in_region(ptr as usize) && !LEDGER_USED.load(Ordering::Relaxed) {
             return System.realloc(ptr, layout, new_size);
         }
         let new_layout = Layout::from_size_align_unchecked(new_size, layout.align());
